@@ -167,6 +167,7 @@ def run(F, R, ctx):
                        fn.loc(b["line"]))
     R.inst("C07.e", "native primitives without unfinished-code macros", True, sample={"natives": len(nat), "unfinished": n},
            nontrivial=True)
+    global_slot_index_rule(F, R)
 
 
 IDX_RX = (r"\{impl Index(Mut)?<I> for (Vec<T,A>|\[T\]|str|String)\}::index(_mut)?$|\{impl \[T\]\}::(swap|split_at|split_at_mut)$|"
@@ -741,3 +742,47 @@ def bounds_strictness_rule(F, R):
                        fn.short(), what, fn.blocks[i].get("line"), "/".join(sorted(sym[r] for r in rels))),
                    fn.loc(fn.blocks[i].get("line")), sample=n <= 3)
     R.floor("C07.t", "accesses dominated by a plain position/length comparison", n, 12)
+
+
+def global_slot_index_rule(F, R):
+    R.rule("C07.g", "the global table is not indexed with an unchecked slot number: in steel::env every indexing of the table "
+                    "of global values (Index / IndexMut, or unwrap of get / get_mut) by a position that derives from a `usize` "
+                    "parameter is dominated by an ordering comparison of that position (with the table's length), or goes through "
+                    "`get` with a handled None. A slot number is handed out when a definition is compiled and the table only grows "
+                    "when it is executed: code of the same piece that runs in between reads past the end")
+    n = 0
+    for name, fn in sorted(F.fns.items()):
+        if not name.startswith("steel::env::") or fn.d["kind"] == "Closure":
+            continue
+        nargs = fn.d.get("nargs") or 0
+        params = ["_%d" % k for k in range(1, nargs + 1) if k - 1 < len(fn.d.get("in") or []) and (fn.d["in"][k - 1] == "usize")]
+        if not params:
+            continue
+        taint = lib.tainted_locals(fn, params)
+        dom = fn.dominators()
+        for i, b in fn.calls():
+            idx_site = re.search(r"::index(_mut)?$", b["callee"]) and len(b["args"]) > 1 and any(
+                x in taint for x in lib.TOK.findall(b["args"][1]))
+            unwrap_site = False
+            if re.search(r"Option<T>\}::(unwrap|expect)$", b["callee"]) and b["args"]:
+                srcs = lib.alias_sources(fn, b["args"][0])
+                for j, gb in fn.calls():
+                    if gb["dest"] in srcs and re.search(r"::(get|get_mut)$", gb["callee"]) and len(gb["args"]) > 1 and \
+                            any(x in taint for x in lib.TOK.findall(gb["args"][1])):
+                        unwrap_site = True
+            if not (idx_site or unwrap_site):
+                continue
+            n += 1
+            guarded = False
+            for d in dom.get(i, ()):
+                for e in fn.blocks[d]["e"]:
+                    if e[0] == "binop" and e[1] in ("Lt", "Le", "Gt", "Ge") and any(
+                            x in taint for o in e[5:] for x in lib.TOK.findall(str(o))):
+                        guarded = True
+            R.inst("C07.g", "%s / slot position compared before it indexes the table (site at block order %d)" % (
+                fn.short(), sum(1 for j_, _ in fn.calls() if j_ < i and re.search(r"::index(_mut)?$|::(unwrap|expect)$", _["callee"]))), guarded,
+                   "%s indexes the table of globals (line %s) with a slot number it did not compare with the table's length: a "
+                   "function compiled in the same piece as a redefinition refers to the fresh slot, and calling it before the "
+                   "definition runs — (begin (define (g y) (f y)) (g 1) (define (f x) …)) after an earlier (define (f x) …) — "
+                   "aborts the host with an index panic" % (fn.short(), b.get("line")), fn.loc(b.get("line")), sample=True)
+    R.floor("C07.g", "indexings of the global table by a slot parameter", n, 2)
